@@ -60,19 +60,20 @@ def fnFacts : List FnFact := [
   ⟨40, "context.go:Init", false, 0, 0, "", false⟩,
   ⟨41, "context.go:AuthorizationCheck", false, 0, 0, "", false⟩,
   ⟨42, "context.go:AddChfUeToUePool", false, 0, 0, "", false⟩,
-  ⟨43, "context.go:NewCHFUe", false, 0, 0, "", false⟩,
-  ⟨44, "context.go:ChfUeFindBySupi", false, 0, 0, "", false⟩,
-  ⟨45, "context.go:GenerateRatingSessionId", false, 0, 0, "", false⟩,
-  ⟨46, "context.go:GenerateAccountSessionId", false, 0, 0, "", false⟩,
-  ⟨47, "context.go:GetSelf", false, 0, 0, "", false⟩,
-  ⟨48, "context.go:GetSelfID", false, 0, 0, "", false⟩,
-  ⟨49, "context.go:GetTokenCtx", false, 0, 0, "", false⟩,
-  ⟨50, "ue_context.go:FindRatingGroup", false, 0, 1, "", false⟩,
-  ⟨51, "ue_context.go:init", false, 0, 21, "constructor: the context is not published yet", false⟩,
-  ⟨52, "rating.go:SendServiceUsageRequest", false, 0, 2, "", false⟩,
-  ⟨53, "rating.go:HandleSUA", false, 0, 0, "", false⟩,
-  ⟨54, "abmf.go:SendAccountDebitRequest", false, 0, 2, "", false⟩,
-  ⟨55, "abmf.go:HandleCCA", false, 0, 0, "", false⟩
+  ⟨43, "context.go:IsControlCharacter", false, 0, 0, "", false⟩,
+  ⟨44, "context.go:NewCHFUe", false, 0, 0, "", false⟩,
+  ⟨45, "context.go:ChfUeFindBySupi", false, 0, 0, "", false⟩,
+  ⟨46, "context.go:GenerateRatingSessionId", false, 0, 0, "", false⟩,
+  ⟨47, "context.go:GenerateAccountSessionId", false, 0, 0, "", false⟩,
+  ⟨48, "context.go:GetSelf", false, 0, 0, "", false⟩,
+  ⟨49, "context.go:GetSelfID", false, 0, 0, "", false⟩,
+  ⟨50, "context.go:GetTokenCtx", false, 0, 0, "", false⟩,
+  ⟨51, "ue_context.go:FindRatingGroup", false, 0, 1, "", false⟩,
+  ⟨52, "ue_context.go:init", false, 0, 21, "constructor: the context is not published yet", false⟩,
+  ⟨53, "rating.go:SendServiceUsageRequest", false, 0, 2, "", false⟩,
+  ⟨54, "rating.go:HandleSUA", false, 0, 0, "", false⟩,
+  ⟨55, "abmf.go:SendAccountDebitRequest", false, 0, 2, "", false⟩,
+  ⟨56, "abmf.go:HandleCCA", false, 0, 0, "", false⟩
 ]
 
 /-- calls between them: caller, callee, made while the caller holds the subscriber's mutex -/
@@ -87,50 +88,50 @@ def callFacts : List CallFact := [
   ⟨16, 10, false⟩,
   ⟨16, 14, false⟩,
   ⟨17, 19, false⟩,
-  ⟨20, 47, false⟩,
+  ⟨20, 48, false⟩,
   ⟨25, 26, false⟩,
-  ⟨25, 44, false⟩,
-  ⟨25, 47, false⟩,
+  ⟨25, 45, false⟩,
+  ⟨25, 48, false⟩,
   ⟨27, 30, false⟩,
   ⟨28, 31, false⟩,
   ⟨29, 32, false⟩,
   ⟨30, 20, true⟩,
   ⟨30, 21, true⟩,
   ⟨30, 22, true⟩,
-  ⟨30, 43, false⟩,
-  ⟨30, 47, false⟩,
+  ⟨30, 44, false⟩,
+  ⟨30, 48, false⟩,
   ⟨31, 20, true⟩,
   ⟨31, 21, true⟩,
   ⟨31, 22, true⟩,
   ⟨31, 23, true⟩,
   ⟨31, 34, true⟩,
-  ⟨31, 44, false⟩,
-  ⟨31, 47, false⟩,
+  ⟨31, 45, false⟩,
+  ⟨31, 48, false⟩,
   ⟨32, 21, true⟩,
   ⟨32, 22, true⟩,
   ⟨32, 23, true⟩,
   ⟨32, 36, true⟩,
-  ⟨32, 44, false⟩,
-  ⟨32, 47, false⟩,
+  ⟨32, 45, false⟩,
+  ⟨32, 48, false⟩,
   ⟨33, 36, false⟩,
   ⟨34, 36, false⟩,
-  ⟨35, 52, false⟩,
+  ⟨35, 53, false⟩,
   ⟨36, 24, false⟩,
   ⟨36, 35, false⟩,
-  ⟨36, 44, false⟩,
-  ⟨36, 47, false⟩,
-  ⟨36, 50, false⟩,
-  ⟨36, 52, false⟩,
-  ⟨36, 54, false⟩,
+  ⟨36, 45, false⟩,
+  ⟨36, 48, false⟩,
+  ⟨36, 51, false⟩,
+  ⟨36, 53, false⟩,
+  ⟨36, 55, false⟩,
   ⟨38, 39, false⟩,
   ⟨40, 38, false⟩,
-  ⟨43, 44, false⟩,
-  ⟨43, 51, false⟩,
-  ⟨49, 49, false⟩,
-  ⟨51, 45, false⟩,
-  ⟨51, 46, false⟩,
-  ⟨52, 53, false⟩,
-  ⟨54, 55, false⟩
+  ⟨44, 45, false⟩,
+  ⟨44, 52, false⟩,
+  ⟨50, 50, false⟩,
+  ⟨52, 46, false⟩,
+  ⟨52, 47, false⟩,
+  ⟨53, 54, false⟩,
+  ⟨55, 56, false⟩
 ]
 
 /-- statements that change the global sequence counters: where, which, kind (0 atomic add of 1, 1 `++`, 2 anything else) -/
